@@ -3,7 +3,7 @@
 import typing
 from typing import Dict, List
 
-from rdflib import XSD, Literal
+from rdflib import XSD, BNode, Literal
 from rdflib.plugins.sparql.operators import register_custom_function, unregister_custom_function
 from rdflib.plugins.sparql.sparql import SPARQLError
 
@@ -154,7 +154,8 @@ class SPARQLFunction(SHACLFunction):
         rvars = len(results.vars)
         rbindings = len(results.bindings)
         if rvars < 1 or rbindings < 1:
-            return []
+            # no solution: the function has no result (callers treat None as 'no value')
+            return None
         rvar = results.vars[0]
         result = results.bindings[0]
         return result[rvar]
@@ -179,13 +180,17 @@ class SPARQLFunction(SHACLFunction):
         new_binds.update(ctx.ctx.bindings)
         g = ctx.ctx.graph
         for i, var in enumerate(e.expr):
-            var_val = ctx[var]
+            # the arguments arrive evaluated; a blank node value is not a variable to look up
+            var_val = var if isinstance(var, BNode) else ctx[var]
             bind_name = params[i].localname
             new_binds[bind_name] = var_val
         if self.ask:
             return self.execute_ask(g, new_binds)
         else:
-            return self.execute_select(g, new_binds)
+            result = self.execute_select(g, new_binds)
+            if result is None:
+                raise SPARQLError("SPARQLFunction {} returned no result.".format(self.node))
+            return result
 
     def apply(self, g):
         super(SPARQLFunction, self).apply(g)
